@@ -93,6 +93,70 @@ pub fn build_request(r: &Value, tokens: &HashMap<String, String>) -> Option<test
     Some(t)
 }
 
+/// runs the request descriptions against an initialised actix test service
+pub async fn run_requests<S, B>(srv: &S, reqs: &[Value]) -> Vec<Value>
+where
+    S: actix_web::dev::Service<actix_http::Request, Response = actix_web::dev::ServiceResponse<B>, Error = actix_web::Error>,
+    B: actix_web::body::MessageBody,
+{
+    let mut tokens: HashMap<String, String> = HashMap::new();
+    let mut out = vec![];
+    for r in reqs.iter().cloned() {
+        if let Some(ms) = r["sleep_ms"].as_u64() {
+            tokio::time::sleep(std::time::Duration::from_millis(ms)).await;
+        }
+        let req = match build_request(&r, &tokens) {
+            Some(q) => q.to_request(),
+            None => {
+                out.push(json!({"rejected_by_http_layer": true}));
+                continue;
+            }
+        };
+        match srv.call(req).await {
+            Ok(resp) => {
+                let want_body = r["want_body"].as_bool().unwrap_or(false);
+                let status = resp.status().as_u16();
+                let hv = |n: &str| resp.headers().get(n).and_then(|v| v.to_str().ok()).map(|s| s.to_owned());
+                let mut o = json!({
+                    "status": status,
+                    "forwarded": hv("x-verif-forwarded").is_some(),
+                    "no_login": hv("No-Login").is_some(),
+                    "no_permission": hv("No-Permission").is_some(),
+                    "content_type": hv("Content-Type"),
+                    "location": hv("Location"),
+                });
+                let body = match actix_web::body::to_bytes(resp.into_body()).await {
+                    Ok(b) => String::from_utf8_lossy(&b).into_owned(),
+                    Err(_) => String::new(),
+                };
+                o["body_len"] = Value::from(body.len() as u64);
+                if let Some(name) = r.get("save_token").and_then(|x| x.as_str()) {
+                    if let Ok(v) = serde_json::from_str::<Value>(&body) {
+                        if let Some(t) = v["data"]["token"].as_str() {
+                            tokens.insert(name.to_owned(), t.to_owned());
+                            o["token_saved"] = Value::Bool(true);
+                        }
+                    }
+                }
+                if want_body {
+                    let mut b = body;
+                    if b.len() > 20000 {
+                        let mut cut = 20000;
+                        while !b.is_char_boundary(cut) {
+                            cut -= 1;
+                        }
+                        b.truncate(cut);
+                    }
+                    o["body"] = Value::String(b);
+                }
+                out.push(o);
+            }
+            Err(e) => out.push(json!({"error": e.to_string()})),
+        }
+    }
+    out
+}
+
 impl Suite for Console {
     fn run(&mut self, case: &Value) -> Value {
         match case["k"].as_str().unwrap_or("") {
@@ -187,60 +251,7 @@ impl Suite for Console {
                                 .configure(console_config),
                         )
                         .await;
-                        let mut tokens: HashMap<String, String> = HashMap::new();
-                        let mut out = vec![];
-                        for r in case["reqs"].as_array().cloned().unwrap_or_default() {
-                            if let Some(ms) = r["sleep_ms"].as_u64() {
-                                tokio::time::sleep(std::time::Duration::from_millis(ms)).await;
-                            }
-                            let req = match build_request(&r, &tokens) {
-                                Some(q) => q.to_request(),
-                                None => {
-                                    out.push(json!({"rejected_by_http_layer": true}));
-                                    continue;
-                                }
-                            };
-                            match srv.call(req).await {
-                                Ok(resp) => {
-                                    let want_body = r["want_body"].as_bool().unwrap_or(false);
-                                    let status = resp.status().as_u16();
-                                    let hv = |n: &str| resp.headers().get(n).and_then(|v| v.to_str().ok()).map(|s| s.to_owned());
-                                    let mut o = json!({
-                                        "status": status,
-                                        "forwarded": hv("x-verif-forwarded").is_some(),
-                                        "no_login": hv("No-Login").is_some(),
-                                        "no_permission": hv("No-Permission").is_some(),
-                                        "location": hv("Location"),
-                                    });
-                                    let body = match actix_web::body::to_bytes(resp.into_body()).await {
-                                        Ok(b) => String::from_utf8_lossy(&b).into_owned(),
-                                        Err(_) => String::new(),
-                                    };
-                                    o["body_len"] = Value::from(body.len() as u64);
-                                    if let Some(name) = r.get("save_token").and_then(|x| x.as_str()) {
-                                        if let Ok(v) = serde_json::from_str::<Value>(&body) {
-                                            if let Some(t) = v["data"]["token"].as_str() {
-                                                tokens.insert(name.to_owned(), t.to_owned());
-                                                o["token_saved"] = Value::Bool(true);
-                                            }
-                                        }
-                                    }
-                                    if want_body {
-                                        let mut b = body;
-                                        if b.len() > 20000 {
-                                            let mut cut = 20000;
-                                            while !b.is_char_boundary(cut) {
-                                                cut -= 1;
-                                            }
-                                            b.truncate(cut);
-                                        }
-                                        o["body"] = Value::String(b);
-                                    }
-                                    out.push(o);
-                                }
-                                Err(e) => out.push(json!({"error": e.to_string()})),
-                            }
-                        }
+                        let out = run_requests(&srv, &case["reqs"].as_array().cloned().unwrap_or_default()).await;
                         json!({"r":"ok","out":out})
                     })
                 }));
